@@ -285,11 +285,29 @@ var debugSlow = os.Getenv("C11_DEBUG") != ""
 var onlyFam = os.Getenv("C11_ONLY") // debugging aid: run only generator families with this prefix
 
 // tieParse: emit `parse` op lines (the Lean parser model covers whole files).
-const tieParse = false
+const tieParse = true
 
 func main() {
 	if len(os.Args) >= 3 && os.Args[1] == "-child" {
 		childMain(os.Args[2])
+		return
+	}
+	if len(os.Args) >= 3 && os.Args[1] == "-tiefile" {
+		// debugging aid: print the tie lines of one source file
+		b, err := os.ReadFile(os.Args[2])
+		if err != nil {
+			fmt.Println(err)
+			os.Exit(2)
+		}
+		c := singleFile("tiefile", string(b))
+		res := runCase(c, func(string) {})
+		fmt.Println("tok " + hlib.Hex(b))
+		fmt.Println(res.TokLine)
+		fmt.Println("parse 1 " + hlib.Hex(b))
+		fmt.Println(res.ParseLine)
+		for _, st := range res.Stages {
+			fmt.Println("#", st.Name, st.Status, st.Msg)
+		}
 		return
 	}
 	r := hlib.Start("C11")
